@@ -336,6 +336,12 @@ func (ex *executor) execInstr(st *state, in ssa.Instruction) {
 			ex.store(st, a, zeroValue(elem))
 		}
 		ex.setVal(t, Value{T: t.Type(), C: []*Term{r}})
+		if t.Comment != "" {
+			if ex.heapLocals == nil {
+				ex.heapLocals = map[string]Value{}
+			}
+			ex.heapLocals[t.Comment] = Value{T: t.Type(), C: []*Term{r}}
+		}
 	case *ssa.Store:
 		av := ex.val(t.Addr)
 		v := ex.val(t.Val)
